@@ -32,17 +32,18 @@ MUTANTS["C18"] = [
 ]
 
 MUTANTS["C12"] = [
-    ("exit-when-pool-empty", "annet/parallel.py", "                if not pool and queue_empty:", "                if not pool:"),
-    ("retired-worker-deleted", "annet/parallel.py", "            if exitcode != 9:\n                del pool[name]", "            if True:\n                del pool[name]"),
+    ("exit-when-pool-empty", "annet/parallel.py", "                if pool_was_empty and queue_empty:", "                if pool_was_empty:"),
+    # (deleting retired workers from the pool in _check_children became an equivalent mutant with ef69d96: the exit test looks at the pool before the poll)
     ("one-stop-token-short", "annet/parallel.py", "            for index in range(pool_size):\n                task_queue.put(PoolWorkerTask(type=PoolWorkerTaskType.STOP))",
      "            for index in range(pool_size):\n                if index or pool_size < 8:\n                    task_queue.put(PoolWorkerTask(type=PoolWorkerTaskType.STOP))"),
     ("result-put-after-quota-skipped", "annet/parallel.py", "        done_queue.put((worker_name, task, results, ret_exc))\n\n        tasks_done += 1",
-     "        tasks_done += 1\n        if not (pool.max_tasks and tasks_done > pool.max_tasks):\n            done_queue.put((worker_name, task, results, ret_exc))\n        tasks_done -= 1\n\n        tasks_done += 1"),
+     "        tasks_done += 1\n        if not (pool.max_tasks and tasks_done >= pool.max_tasks and tasks_done > 1):\n            done_queue.put((worker_name, task, results, ret_exc))\n        tasks_done -= 1\n\n        tasks_done += 1"),
     ("exc-dropped-single-process", "annet/parallel.py", "                    task_result.exc = safe_exc\n                if self.capture_output:", "                    task_result.exc = None\n                if self.capture_output:"),
     ("exit-test-uses-stale-poll-flag (revert of ef69d96)", "annet/parallel.py", "                if pool_was_empty and queue_empty:", "                if not pool and queue_empty:"),
     # (round-5 seed C12-10, re-expressed on the repaired tree: the timeout baseline is no longer refreshed when a result arrives)
     ("task-timeout-counts-from-pool-start", "annet/parallel.py", "                    worker_name, _, in_thread_results, exc = done_queue.get(True, 0.1 if pool_was_empty else 1)\n                    last_task_ts = time.monotonic()\n",
      "                    worker_name, _, in_thread_results, exc = done_queue.get(True, 0.1 if pool_was_empty else 1)\n"),
+    ("callback-lists-shared-by-all-pools", "annet/parallel.py", "        self.callbacks = []\n        self.in_thread_callbacks = []", "        self.callbacks = Parallel.__dict__.get('_vf_cb') or []\n        self.in_thread_callbacks = Parallel.__dict__.get('_vf_icb') or []\n        Parallel._vf_cb, Parallel._vf_icb = self.callbacks, self.in_thread_callbacks"),
 ]
 
 MUTANTS["C01"] = [
